@@ -9,6 +9,7 @@ import (
 	"compress/gzip"
 	"context"
 	"encoding/json"
+	"errors"
 	"fmt"
 	"io"
 	"net/http"
@@ -30,6 +31,21 @@ import (
 type valStruct struct {
 	A int    `json:"a" validate:"min=1"`
 	B string `json:"b"`
+}
+
+// noNull is a value type in the style of felt.Felt: its pointer-receiver UnmarshalJSON refuses JSON null
+// (encoding/json calls UnmarshalJSON for null too); any other input must be an int.
+type noNull struct{ V int }
+
+func (n *noNull) UnmarshalJSON(b []byte) error {
+	if string(bytes.TrimSpace(b)) == "null" {
+		return errors.New("noNull: null is not a value")
+	}
+	return json.Unmarshal(b, &n.V)
+}
+
+type reqStruct struct {
+	Name string `json:"name" validate:"required"`
 }
 
 type recorder struct {
@@ -157,6 +173,17 @@ func newHarness(poolSize int, yield bool) *harness {
 				}
 			}},
 		{Name: uniName, Handler: func() (int, *jsonrpc.Error) { r.add(uniName); return 1, nil }},
+		{Name: "nn", Params: []jsonrpc.Parameter{P("x", false), P("y", true)},
+			Handler: func(x, y noNull) ([]noNull, *jsonrpc.Error) { r.add("nn", x, y); return []noNull{x, y}, nil }},
+		{Name: "valOpt", Params: []jsonrpc.Parameter{P("a", false), P("v", true)},
+			Handler: func(a int, v valStruct) (map[string]any, *jsonrpc.Error) {
+				r.add("valOpt", a, v)
+				return map[string]any{"a": a, "v": v}, nil
+			}},
+		{Name: "valMapVal", Params: []jsonrpc.Parameter{P("m", false)},
+			Handler: func(m map[string]valStruct) (map[string]valStruct, *jsonrpc.Error) { r.add("valMapVal", m); return m, nil }},
+		{Name: "req", Params: []jsonrpc.Parameter{P("r", false)},
+			Handler: func(q reqStruct) (reqStruct, *jsonrpc.Error) { r.add("req", q); return q, nil }},
 	}
 	if len(methods) != len(methodSpecs) {
 		stats.HarnessError("method table and model disagree: %d vs %d", len(methods), len(methodSpecs))
